@@ -35,6 +35,7 @@ fn pos_json(p: &Position) -> J {
         "end_line": p.end_line_number,
         "col": p.column,
         "end_col": p.end_column,
+        "path": p.path.display().to_string(),
     })
 }
 
